@@ -552,6 +552,43 @@ func c11Run(w *W, idx int) {
 				}
 			}
 		}
+		// Undefined-variable mode, names registered later: a rule compiled while its variables were still unknown keeps
+		// reading them by name after they have been registered and a context was built from the (now complete) Config.
+		if kind == 0 {
+			c2 := eval.CopyConfig(cc)
+			eOld, co := compileGuard(c2, sumSrc)
+			w.Evals++
+			if co.Panic == nil && co.Err == nil {
+				names := make([]string, 0, len(vals))
+				for n := range vals {
+					names = append(names, n)
+				}
+				sort.Strings(names)
+				if r.Intn(2) == 0 {
+					for _, n := range names {
+						eval.GetOrRegisterKey(c2, n)
+					}
+				} else {
+					realVals := map[string]interface{}{}
+					for n, v := range vals {
+						if v == nil || reflect.TypeOf(v).Kind() != reflect.Func {
+							realVals[n] = v
+						}
+					}
+					eval.RegVarAndOp(realVals)(c2)
+				}
+				o := guard(func() (eval.Value, error) { return eOld.Eval(eval.NewCtxFromVars(c2, vals)) })
+				w.Evals++
+				w.Inc("compiled_before_registration_probes")
+				if o.Panic != nil || o.Err != nil || !valEq(o.V, wantSum) {
+					w.Fail("wrong-value-delivered/compiled-before-registration", "%s = %s, expected %d: the expression was compiled in undefined-variable mode, its variables were registered afterwards and the context built from the Config after that\nbinding: %s", sumSrc, o, wantSum, c11Binding(vals))
+				}
+				avail := guard(func() (eval.Value, error) { return eOld.TryEval(eval.NewCtxFromVars(c2, vals)) })
+				if avail.Panic != nil || avail.Err != nil || !valEq(avail.V, wantSum) {
+					w.Fail("wrong-value-delivered/compiled-before-registration", "TryEval of %s = %s, expected %d (every variable bound): compiled in undefined-variable mode, variables registered afterwards\nbinding: %s", sumSrc, avail, wantSum, c11Binding(vals))
+				}
+			}
+		}
 		// a whole program that is one variable (possible in infix notation only), through Compile + Eval and through the
 		// one-shot eval.Eval helper
 		for _, v := range append(append([]vr{}, intVars...), otherVars...) {
